@@ -517,6 +517,20 @@ fn run_life(world: &Shared, setup: &Setup, steps: &mut u64) -> LifeEnd {
         (c, h, setup.os_version.clone())
     };
     {
+        // later lifetimes can crash too, with a bias towards their first interactions (recovery paths)
+        let mut w = lock(world);
+        let life = w.life;
+        if life > 0 && w.crash_at.is_none() {
+            let cp = w.profile.crash_permille;
+            if w.draws.chance(&format!("L{life}/crash/enabled"), cp) {
+                let horizon = w.profile.crash_horizon.max(1);
+                let early = w.draws.draw(&format!("L{life}/crash/early"), 3) == 0;
+                let at = if early { 1 + w.draws.draw(&format!("L{life}/crash/at"), 14) } else { 1 + w.draws.draw(&format!("L{life}/crash/at"), horizon) };
+                w.crash_at = Some(w.interactions + at);
+            }
+        }
+    }
+    {
         let mut w = lock(world);
         w.select_ord = 0;
         let presets = conv::apps(&setup.apps);
